@@ -223,7 +223,12 @@ def session_case(rng, tier):
         w.emit('fm_snap')
         w.emit('fm_close')
         w.emit('fm_stat')
-    # ---- read-write: prior content intact, and the same calls go through
+    # ---- read-write: prior content intact (old time stamps are not refreshed by an open), and the same calls go through
+    if rng.random() < 0.7:
+        w.emit('fm_prep settime %s %d' % (rng.choice(['updated_at', 'updated_at', 'created_at']), 1000000000 + rng.randrange(100000)))
+        w.emit('fm_stat')
+        if rng.random() < 0.5:
+            w.emit('fm_open ro %s 0' % rng.choice(COMPR)); w.emit('fm_snap'); w.emit('fm_close'); w.emit('fm_stat')
     w.emit('fm_open rw %s %d' % (rng.choice(COMPR), 1 if rng.random() < 0.1 else 0))
     w.emit('fm_snap')
     rebind(w, e)
